@@ -18,8 +18,8 @@ package opchild
 //@   requires Params != None && addrOK(1, val(Params).Admin) && decCoinsValid(val(Params).MinGasPrices) && val(Params).MaxValidators != 0
 //@        && (forall j int :: 0 <= j && j < len(val(Params).FeeWhitelist) ==> addrOK(1, val(Params).FeeWhitelist[j]))                                             // INV_PARAMS (SetParams validates what it stores)
 //@   requires forall g uint64 :: ExecutorChangePlans[g] != None ==> (forall j int :: 0 <= j && j < len(val(ExecutorChangePlans[g]).NextExecutors) ==> addrOK(1, val(ExecutorChangePlans[g]).NextExecutors[j]))
-//@        && val(ExecutorChangePlans[g]).NextValidator.ConsensusPubkey != nil && implements(val(val(ExecutorChangePlans[g]).NextValidator.ConsensusPubkey).cachedValue, "github.com/cosmos/cosmos-sdk/crypto/types.PubKey")   // INV_PLAN (RegisterExecutorChangePlan)
-//@   requires forall k bytes :: Validators[k] != None ==> val(Validators[k]).ConsensusPubkey != nil && implements(val(val(Validators[k]).ConsensusPubkey).cachedValue, "github.com/cosmos/cosmos-sdk/crypto/types.PubKey")    // INV_VAL K4 (NewValidator packs a key)
+//@        && implements(val(val(ExecutorChangePlans[g]).NextValidator.ConsensusPubkey).cachedValue, "github.com/cosmos/cosmos-sdk/crypto/types.PubKey")   // INV_PLAN (RegisterExecutorChangePlan)
+//@   requires forall k bytes :: Validators[k] != None ==> implements(val(val(Validators[k]).ConsensusPubkey).cachedValue, "github.com/cosmos/cosmos-sdk/crypto/types.PubKey")    // INV_VAL K4 (NewValidator packs a key)
 //@   ensures found ==> err == nil                                                                                                            // C14: block_processing_does_not_fail_because_of_the_plan
 //@   ensures err == nil && !found ==> Params == old(Params)                                                                                // C14: no_plan_no_executor_change
 //@   ensures err == nil && found ==> Params != None && val(Params).BridgeExecutors == plan.NextExecutors                                   // C14: executors_become_the_plan_list
